@@ -121,6 +121,13 @@ def state(ctx: Ctx) -> StatePhases:
     whose result the submit loop iterates (ready method)."""
     P = ctx.P
     sub = submission_sites(ctx)[0]
+    # 1. anchors named by the properties file (TaskState.start_task / complete_task / get_ready_tasks):
+    #    used when present, so that a change that *removes a call* to one of them is reported by the
+    #    rule that requires the call, not as a lost anchor
+    named = P.classes.get(f'{PKG}.lab.TaskState')
+    if named is not None and all(n in named.methods for n in ('__init__', 'start_task', 'complete_task', 'get_ready_tasks')):
+        return _phases(ctx, named, 'start_task', 'complete_task', 'get_ready_tasks')
+    # 2. role-based discovery (the class was renamed / restructured)
     # candidate classes instantiated in the submitting function
     cand: dict[str, str] = {}
     for n in walk_local(sub.fn.node):
@@ -174,6 +181,11 @@ def state(ctx: Ctx) -> StatePhases:
         raise AnalysisError('could not identify the scheduler state class (start / completion / ready methods) '
                             f'from the submission site and the consumer loop in {sub.fn.short}')
     c, start_m, comp_m, ready_m = best
+    return _phases(ctx, c, start_m, comp_m, ready_m)
+
+
+def _phases(ctx: Ctx, c: ClassInfo, start_m: str, comp_m: str, ready_m: str) -> StatePhases:
+    P = ctx.P
     sm, cm, rm = (P.find_method(c, x) for x in (start_m, comp_m, ready_m))
     if sm is None or cm is None or rm is None:
         raise AnalysisError(f'state class {c.name} lacks one of {start_m}/{comp_m}/{ready_m}')
